@@ -447,6 +447,109 @@ def run(ctx):
                 fail = (ref, ival, "cdf is not the product of the component cdfs (the integral of the product density over the lower orthant)")
         verdict(ctx, key, desc, tie_ok, out, [istat, ival], fail, "cdf: model and implementation differ")
 
+
+    # =================================================================== 2b. re-assignment histories on ONE object (i.i.d. families)
+    # after every assignment logpdf / pdf / logd / cdf must be those of the CURRENT parameters (the model is pure)
+    def point_for(fam, p, n):
+        P = [np.broadcast_to(np.asarray(v, dtype=float), (n,)) if v else None for v in p]
+        if fam in ("normal", "laplace", "smoothedlaplace", "cauchy"):
+            return [dy(rng, -5, 5, 8) for _ in range(n)]
+        if fam == "gamma":
+            return [dy(rng, 0.125, 6, 8) for _ in range(n)]
+        if fam == "invgamma":
+            return [float(P[1][j]) + dy(rng, 0.25, 4, 8) for j in range(n)]
+        if fam == "beta":
+            return [rng.randint(2, 30) / 32 for _ in range(n)]
+        if fam == "uniform":
+            return [float(P[0][j]) + (float(P[1][j]) - float(P[0][j])) * rng.randint(0, 8) / 8 for j in range(n)]
+        raise ValueError(fam)
+
+    HFAMS = ["normal", "laplace", "smoothedlaplace", "cauchy", "gamma", "invgamma", "beta", "uniform"]
+    hist_runs = []
+    hlines = []
+    for fam in HFAMS:
+        for _ in range(4 * S):
+            n = rng.choice([1, 2, 3, 4])
+            _, p = gen_params(fam, n, "in")
+            # full-length arrays (no known-finding input classes here), documented scalars stay scalars
+            for k in range(len(p)):
+                if p[k] and len(p[k]) == 1 and not (fam == "laplace" and k == 1) and not (fam == "smoothedlaplace" and k == 2):
+                    p[k] = [p[k][0]] * n
+            steps = []
+            cur = [list(v) for v in p]
+            for step in range(rng.choice([3, 4, 5])):
+                assign = None
+                if step > 0:
+                    k = rng.randrange(len(PNAMES[fam]))
+                    _, fresh = gen_params(fam, n, "in")
+                    new = list(fresh[k]) if len(fresh[k]) == len(cur[k]) else [fresh[k][0]] * len(cur[k])
+                    how = rng.choice(["some", "some", "all", "none"])
+                    if how == "none":
+                        new = list(cur[k])
+                    elif how == "some" and len(new) > 1:
+                        keep = rng.sample(range(len(new)), rng.randint(1, len(new) - 1))
+                        for j in keep:
+                            new[j] = cur[k][j]
+                    if fam == "uniform":      # keep low < high componentwise
+                        lo = new if k == 0 else cur[0]; hi = new if k == 1 else cur[1]
+                        if any(a >= b for a, b in zip(lo, hi)):
+                            new = list(cur[k]); how = "none"
+                    cur[k] = new
+                    assign = (PNAMES[fam][k], new, how)
+                x = point_for(fam, cur, n)
+                modes = "".join("s" if len(v) == 1 else "a" for v in cur if v)
+                modes = (modes + "---")[:3]
+                pv = [qv(v) if v else "-" for v in (cur + [[], [], []])[:3]]
+                hlines.append(f"iid {fam} {n} {modes} {qv(x)} {pv[0]} {pv[1]} {pv[2]}")
+                steps.append((assign, x, [list(v) for v in cur]))
+            hist_runs.append((fam, n, [list(v) for v in p], steps))
+    houts = iter(ctx.lean.drive(hlines))
+    for fam, n, p0, steps in hist_runs:
+        def obj(v):
+            return float(v[0]) if len(v) == 1 else np.array(v, dtype=float)
+        kw = dict(zip(PNAMES[fam], [obj(v) for v in p0 if v]))
+        with quiet():
+            dist = CLS[fam](**kw, geometry=n)
+        log = []
+        for (assign, x, cur) in steps:
+            out = next(houts)
+            if assign is not None:
+                with quiet():
+                    setattr(dist, assign[0], obj(assign[1]))
+                log.append(f"{assign[0]}:{assign[2]}")
+            else:
+                log.append("init")
+            desc = {"family": fam, "dim": n, "initial": p0, "history": list(log), "current": cur, "x": x}
+            ctx.case(f"history-{fam}", desc)
+            key = f"{CLS[fam].__name__}:history:" + (assign[0] if assign else "init")
+            xa = np.array(x, dtype=float)
+            mstat, mt = model_parse(out)
+            mval = dec(mt[1]) if mstat == "formula" else None
+            istat, ival = call(lambda: dist.logpdf(xa))
+            tie_ok = agree(mstat, mval, istat, ival)
+            ref = reference(fam, x, cur, n)
+            fail = None
+            if istat != "value" or (ref is not None and not close(ref, ival, ORTOL)):
+                fail = (ref, [istat, ival], "after re-assigning a parameter, logpdf is not the documented density of the current parameters")
+            ps, pval = call(lambda: dist.pdf(xa))
+            ls, lval = call(lambda: dist.logd(xa))
+            if fail is None and ref is not None and math.isfinite(ref):
+                if ps != "value" or not close(pval, math.exp(ref), 1e-8):
+                    fail = (math.exp(ref), [ps, pval], "after re-assigning a parameter, pdf is not the documented density of the current parameters")
+                    tie_ok = tie_ok and False
+                elif ls != "value" or not close(lval, ref, ORTOL):
+                    fail = (ref, [ls, lval], "after re-assigning a parameter, logd is not the documented log-density of the current parameters")
+                    tie_ok = False
+            if fail is None and fam in CDF and not (fam == "cauchy" and n > 1):
+                P = [np.broadcast_to(np.asarray(v, dtype=float), (n,)) for v in cur if v]
+                with np.errstate(all="ignore"):
+                    cref = float(np.prod([CDF[fam](x[j], [Pk[j] for Pk in P]) for j in range(n)]))
+                cs, cval = call(lambda: dist.cdf(xa))
+                if cs != "value" or not close(cref, cval, 1e-10):
+                    fail = (cref, [cs, cval], "after re-assigning a parameter, cdf is not that of the current parameters")
+                    tie_ok = False
+            verdict(ctx, key, desc, tie_ok, out, [istat, ival], fail, "history: model (current parameters) and implementation differ")
+
     # =================================================================== 3. Gaussian parameterisations
     gauss_section(ctx, D, G, rng, nrng, S, thorough, bump, fam_hist)
 
@@ -455,6 +558,11 @@ def run(ctx):
 
     # =================================================================== 5. Markov random fields
     mrf_section(ctx, D, G, rng, S, thorough)
+
+    # =================================================================== 5b. covariance / cdf of non-diagonal Gaussians, re-assignment histories
+    gauss_cov_cdf_section(ctx, D, G, rng, S)
+    lognormal_history_section(ctx, D, rng, S)
+    mrf_history_section(ctx, D, G, rng, S)
 
     # =================================================================== 6. normalisation by quadrature
     quadrature_section(ctx, D, G, rng, S)
@@ -879,6 +987,296 @@ def mrf_section(ctx, D, G, rng, S, thorough):
             if istat != "value" or not close(ref, ival, ORTOL):
                 fail = (ref, ival, f"{fam.upper()}.logpdf is not the sum of the documented densities of the differences D(x-location)")
             verdict(ctx, key, desc, not mism, out[:120], mism, fail, f"{fam.upper()}: model and implementation differ: " + "; ".join(mism))
+
+
+def _dense(M):
+    return np.asarray(M.todense()) if spa.issparse(M) else np.asarray(M)
+
+
+def gauss_cov_cdf_section(ctx, D, G, rng, S):
+    """(A) compute_cov() / cov-after-compute / cdf of Gaussians given by NON-DIAGONAL matrices (symmetric and, for
+    the square-root forms, non-symmetric), dims 2..4, against the model's exact covariance of the distribution whose
+    logpdf is evaluated; (B) the same reads after re-assigning the matrix or the mean on the same object."""
+    from scipy import integrate
+    forms = ["cov", "prec", "sqrtcov", "sqrtprec"]
+
+    def spd(n):
+        A = np.array([[dy(rng, -1, 1, 2) for _ in range(n)] for _ in range(n)])
+        A = A @ A.T + np.eye(n) * rng.choice([0.5, 1.0, 2.0])
+        if np.count_nonzero(A - np.diag(np.diag(A))) == 0:
+            A[0, 1] = A[1, 0] = 0.25
+        return A
+
+    def sq(n, sym):
+        while True:
+            A = np.array([[dy(rng, -2, 2, 2) for _ in range(n)] for _ in range(n)]) + np.eye(n) * 2
+            if sym:
+                A = (A + A.T) / 2
+            else:
+                A[0, n - 1] += 1.0; A[n - 1, 0] = 0.0
+            if abs(np.linalg.det(A)) > 0.3 and np.count_nonzero(A - np.diag(np.diag(A))) > 0:
+                return A
+
+    def perturb(M, form):
+        """new matrix sharing most entries with M (one diagonal entry raised) — stays SPD / non-singular"""
+        M2 = M.copy(); j = rng.randrange(M.shape[0]); M2[j, j] += rng.choice([0.5, 1.0, 2.0])
+        if abs(np.linalg.det(M2)) < 0.2:
+            M2[j, j] += 3.0
+        return M2
+
+    runs, lines = [], []
+    for form in forms:
+        for n in (2, 2, 3, 4):
+            for rep in range(1 * S):
+                sym = form in ("cov", "prec") or rng.random() < 0.4
+                M = spd(n) if form in ("cov", "prec") else sq(n, sym)
+                mu = [dy(rng, -2, 2) for _ in range(n)]
+                steps = []
+                for step in range(rng.choice([2, 3, 4])):
+                    assign = None
+                    if step > 0:
+                        if rng.random() < 0.6:
+                            how = rng.choice(["some", "all", "none"])
+                            M = perturb(M, form) if how == "some" else ((spd(n) if form in ("cov", "prec") else sq(n, sym)) if how == "all" else M.copy())
+                            assign = (form, M.copy(), how)
+                        else:
+                            mu2 = [dy(rng, -2, 2) for _ in range(n)]
+                            for j in rng.sample(range(n), rng.randint(0, n - 1)):
+                                mu2[j] = mu[j]
+                            mu = mu2; assign = ("mean", np.array(mu), "some")
+                    x = [dy(rng, -2, 3) for _ in range(n)]
+                    lines.append(f"gauss {form} dense {n} {qv(x)} {qv(mu)} {qm(M.tolist())}")
+                    lines.append(f"gausscov {form} dense {n} {qm(M.tolist())}")
+                    steps.append((assign, x, list(mu), M.copy()))
+                runs.append((form, n, sym, steps))
+    outs = iter(ctx.lean.drive(lines))
+    nquad = 0
+    st = np.random.get_state()
+    try:
+        for form, n, sym, steps in runs:
+            a0, x0, mu0, M0 = steps[0]
+            with quiet():
+                g = D.Gaussian(np.array(mu0), **{form: M0.copy()})
+            log = []
+            for (assign, x, mu, M) in steps:
+                o1, o2 = next(outs), next(outs)
+                if assign is not None:
+                    with quiet():
+                        setattr(g, assign[0], assign[1].copy() if hasattr(assign[1], "copy") else assign[1])
+                    log.append(f"{assign[0]}:{assign[2]}")
+                else:
+                    log.append("init")
+                nonsym = not np.allclose(M, M.T)
+                desc = {"form": form, "dim": n, "history": list(log), "mean": mu, "M": M.tolist(), "x": x}
+                ctx.case("gauss-cov-cdf", desc)
+                key = f"Gaussian:{form}:covariance" + (":history" if len(log) > 1 else "")
+                xa = np.array(x, dtype=float)
+                t1, t2 = o1.split(), o2.split()
+                mism, fail = [], None
+                if t1[0] != "ok" or t2[0] != "ok":
+                    ctx.note(f"model declines a generated SPD/non-singular case: {o1[:30]} {o2[:30]}"); continue
+                Cm = np.array([[float(Fraction(v)) for v in r.split(",")] for r in t2[1].split(";")])
+                istat, ival = call(lambda: g.logpdf(xa))
+                if istat != "value" or not close(dec(t1[4]), ival, TOL):
+                    mism.append(f"logpdf {[istat, ival]} vs model {dec(t1[4])}")
+                with quiet():
+                    S_ = _dense(g.sqrtprec)
+                    Cself = np.linalg.inv(S_.T @ S_)          # covariance of the density logpdf evaluates
+                    try:
+                        Ci = _dense(g.compute_cov())
+                        Cattr = _dense(g.cov)
+                    except Exception as e:  # noqa
+                        Ci = None; mism.append(f"compute_cov raised {type(e).__name__}")
+                if not np.allclose(Cself, Cm, rtol=1e-8, atol=1e-10):
+                    mism.append("inverse of sqrtprec^T sqrtprec is not the model's covariance")
+                if Ci is not None:
+                    if Ci.shape != Cm.shape or not np.allclose(Ci, Cm, rtol=1e-8, atol=1e-10):
+                        mism.append("compute_cov() is not the model's exact covariance")
+                    if not np.allclose(Ci, Cself, rtol=1e-7, atol=1e-9):
+                        fail = (Cself.tolist(), Ci.tolist(), "compute_cov() is not the covariance of the density that logpdf evaluates (inverse of sqrtprec^T sqrtprec)")
+                    elif not np.allclose(Cattr, Ci, rtol=1e-12, atol=1e-12):
+                        fail = (Ci.tolist(), Cattr.tolist(), "`cov` read after compute_cov() differs from what compute_cov() returned")
+                # cdf = integral of that density
+                if fail is None:
+                    cs, cval = call(lambda: g.cdf(xa))
+                    with quiet():
+                        cref = float(sps.multivariate_normal(np.array(mu), Cself, allow_singular=False).cdf(xa))
+                    if cs != "value" or abs(cval - cref) > 2e-3:
+                        fail = (cref, [cs, cval], "Gaussian.cdf is not the integral of the density (reference: scipy mvn cdf with the covariance logpdf uses)")
+                    elif n == 2 and nquad < 3 * S and len(log) == 1:
+                        nquad += 1
+                        sd = np.sqrt(np.diag(Cself))
+                        f = lambda b, a: float(np.exp(fnum(g.logpdf(np.array([a, b])))))
+                        with quiet():
+                            integ = integrate.dblquad(f, mu[0] - 9 * sd[0], x[0], mu[1] - 9 * sd[1], x[1], epsabs=1e-7, epsrel=1e-7)[0] \
+                                if x[0] > mu[0] - 9 * sd[0] and x[1] > mu[1] - 9 * sd[1] else 0.0
+                        ctx.case("gauss-cdf-quadrature-2d", {"form": form})
+                        if abs(integ - cval) > 2e-3:
+                            fail = (integ, cval, "Gaussian.cdf is not the 2-D quadrature of the implementation's own pdf")
+                # documented covariance (sqrtcov: R^T R) — known finding for non-symmetric R
+                if fail is None and not mism and form == "sqrtcov" and nonsym:
+                    ctx.fail("Gaussian:sqrtcov:covariance:nonsymmetric", desc, (M.T @ M).tolist(), Ci.tolist(),
+                             "compute_cov() of Gaussian(sqrtcov=R) is R R^T, documented R^T R")
+                verdict(ctx, key, desc, not mism, o2[:120], mism, fail, "Gaussian covariance: model and implementation differ: " + "; ".join(mism))
+    finally:
+        np.random.set_state(st)
+
+
+def lognormal_history_section(ctx, D, rng, S):
+    """Lognormal keeps an internal Gaussian; `mean` / `cov` re-assigned with values sharing some / all / no entries"""
+    runs, lines = [], []
+    for rep in range(8 * S):
+        n = rng.choice([2, 3, 3, 4])
+        kind = rng.choice(["vector", "dense", "vector"])
+        mu = [dy(rng, -1, 1) for _ in range(n)]
+        if kind == "vector":
+            C = [dy(rng, 0.25, 3) for _ in range(n)]
+        else:
+            A = np.array([[dy(rng, -1, 1, 2) for _ in range(n)] for _ in range(n)]); C = A @ A.T + np.eye(n)
+        steps = []
+        for step in range(rng.choice([3, 4, 5])):
+            assign = None
+            if step > 0:
+                how = rng.choice(["some", "some", "all", "none"])
+                if rng.random() < 0.5:
+                    mu2 = [dy(rng, -1, 1) + (0.125 if how != "none" else 0) for _ in range(n)]
+                    if how == "none":
+                        mu2 = list(mu)
+                    elif how == "some":
+                        for j in rng.sample(range(n), rng.randint(1, n - 1)):
+                            mu2[j] = mu[j]
+                    mu = mu2; assign = ("mean", np.array(mu), how)
+                else:
+                    if kind == "vector":
+                        C2 = [dy(rng, 0.25, 3) for _ in range(n)]
+                        if how == "none":
+                            C2 = list(C)
+                        elif how == "some":
+                            for j in rng.sample(range(n), rng.randint(1, n - 1)):
+                                C2[j] = C[j]
+                        C = C2
+                    else:
+                        if how == "some":
+                            C = C.copy(); j = rng.randrange(n); C[j, j] += rng.choice([0.5, 1.0])
+                        elif how == "all":
+                            A = np.array([[dy(rng, -1, 1, 2) for _ in range(n)] for _ in range(n)]); C = A @ A.T + 2 * np.eye(n) + 0.25
+                        else:
+                            C = C.copy()
+                    assign = ("cov", np.array(C, dtype=float), how)
+            x = [dy(rng, 0.25, 4, 8) for _ in range(n)]
+            logx = [math.log(v) for v in x]
+            Mv = [list(C)] if kind == "vector" else np.asarray(C).tolist()
+            lines.append(f"logn {kind} {n} {qv(x)} {qv(logx)} {qv(mu)} {qm(Mv)}")
+            steps.append((assign, x, list(mu), np.array(C, dtype=float)))
+        runs.append((n, kind, steps))
+    outs = iter(ctx.lean.drive(lines))
+    for n, kind, steps in runs:
+        a0, x0, mu0, C0 = steps[0]
+        with quiet():
+            dist = D.Lognormal(np.array(mu0), C0.copy())
+        log = []
+        for (assign, x, mu, C) in steps:
+            out = next(outs)
+            if assign is not None:
+                with quiet():
+                    setattr(dist, assign[0], assign[1].copy())
+                log.append(f"{assign[0]}:{assign[2]}")
+            else:
+                log.append("init")
+            desc = {"dim": n, "kind": kind, "history": list(log), "mean": mu, "cov": C.tolist(), "x": x}
+            ctx.case("history-lognormal", desc)
+            key = "Lognormal:history:" + (assign[0] if assign else "init")
+            istat, ival = call(lambda: dist.logpdf(np.array(x)))
+            t = out.split()
+            mval = dec(t[1]) if t[0] == "ok" else None
+            tie_ok = mval is not None and istat == "value" and close(mval, ival, TOL)
+            Cfull = np.diag(C) if C.ndim == 1 else C
+            ref = float(sps.multivariate_normal(np.array(mu), Cfull).logpdf(np.log(x)) - np.sum(np.log(x)))
+            fail = None
+            if istat != "value" or not close(ref, ival, ORTOL):
+                fail = (ref, [istat, ival], "after re-assigning mean/cov, Lognormal.logpdf is not that of the current parameters (stale internal Gaussian)")
+            else:
+                ps, pval = call(lambda: dist.pdf(np.array(x)))
+                if ps != "value" or not close(pval, math.exp(ref), 1e-8):
+                    fail = (math.exp(ref), [ps, pval], "after re-assigning mean/cov, Lognormal.pdf is not that of the current parameters")
+                    tie_ok = False
+            verdict(ctx, key, desc, tie_ok, out, [istat, ival], fail, "Lognormal history: model (current parameters) and implementation differ")
+
+
+def mrf_history_section(ctx, D, G, rng, S):
+    """GMRF (prec, mean), LMRF / CMRF (location, scale) re-assigned on one object"""
+    runs, lines = [], []
+    for fam in ("gmrf", "lmrf", "cmrf"):
+        for rep in range(4 * S):
+            n = rng.choice([3, 4, 5, 6]); bc = rng.choice(["zero", "zero", "periodic", "neumann"])
+            order = rng.choice([1, 2]) if fam == "gmrf" else 1
+            if fam == "gmrf" and order == 2 and bc == "neumann":
+                bc = "zero"                      # known-finding class (rank) stays in mrf_section
+            par = rng.choice([0.5, 1.0, 2.0]); loc = [dy(rng, -2, 2) for _ in range(n)]
+            steps = []
+            for step in range(rng.choice([3, 4])):
+                assign = None
+                if step > 0:
+                    if rng.random() < 0.5:
+                        par = rng.choice([0.25, 0.5, 1.0, 2.0, 4.0]); assign = ("prec" if fam == "gmrf" else "scale", par, "all")
+                    else:
+                        l2 = [dy(rng, -2, 2) for _ in range(n)]
+                        for j in rng.sample(range(n), rng.randint(0, n - 1)):
+                            l2[j] = loc[j]
+                        loc = l2; assign = ("mean" if fam == "gmrf" else "location", np.array(loc), "some")
+                x = [dy(rng, -3, 3) for _ in range(n)]
+                if fam == "gmrf":
+                    lines.append(f"gmrf 1 {order} {bc} {n} {q(par)} {qv(x)} {qv(loc)}")
+                else:
+                    lines.append(f"mrf {fam} 1 {bc} {n} {q(par)} {qv(x)} {qv(loc)}")
+                steps.append((assign, x, list(loc), par))
+            runs.append((fam, n, bc, order, steps))
+    outs = iter(ctx.lean.drive(lines))
+    for fam, n, bc, order, steps in runs:
+        a0, x0, loc0, par0 = steps[0]
+        try:
+            with quiet():
+                dist = {"gmrf": lambda: D.GMRF(np.array(loc0), par0, bc_type=bc, order=order),
+                        "lmrf": lambda: D.LMRF(np.array(loc0), par0, bc_type=bc),
+                        "cmrf": lambda: D.CMRF(np.array(loc0), par0, bc_type=bc)}[fam]()
+        except Exception:
+            for _ in steps:
+                next(outs)
+            continue
+        log = []
+        for (assign, x, loc, par) in steps:
+            out = next(outs)
+            if assign is not None:
+                with quiet():
+                    setattr(dist, assign[0], assign[1])
+                log.append(f"{assign[0]}:{assign[2]}")
+            else:
+                log.append("init")
+            desc = {"family": fam, "n": n, "bc": bc, "order": order, "history": list(log), "param": par, "location": loc, "x": x}
+            ctx.case(f"history-{fam}", desc)
+            key = f"{fam.upper()}:history:{bc}:" + (assign[0] if assign else "init")
+            xa, lb = np.array(x, dtype=float), np.array(loc, dtype=float)
+            istat, ival = call(lambda: dist.logpdf(xa))
+            t = out.split()
+            tok = t[5] if fam == "gmrf" else t[2]
+            tie_ok = True if tok == "-" else (istat == "value" and close(dec(tok), ival, 1e-8))
+            fail = None
+            with quiet():
+                if fam == "gmrf":
+                    Pi = _dense(dist._prec_op.get_matrix())
+                    qi = float((xa - lb) @ (Pi @ (xa - lb)))
+                    s0, v0 = call(lambda: dist.logpdf(lb.copy()))
+                    c0 = 0.5 * (int(dist._rank) * (math.log(par) - math.log(2 * math.pi)) + float(dist._logdet))
+                    if istat != "value" or s0 != "value" or not close(ival - v0, -0.5 * par * qi, 1e-8):
+                        fail = (-0.5 * par * qi, [istat, ival], "after re-assigning prec/mean, GMRF.logpdf(x)-logpdf(mean) is not -prec/2 |D(x-mean)|^2 for the current parameters")
+                    elif not close(v0, c0, 1e-8):
+                        fail = (c0, v0, "after re-assigning prec, the GMRF normalising constant is not that of the current precision")
+                else:
+                    Dm = _dense(dist._diff_op.get_matrix()); u = Dm @ (xa - lb)
+                    ref = float(sum((sps.laplace if fam == "lmrf" else sps.cauchy).logpdf(v, 0, par) for v in u))
+                    if istat != "value" or not close(ref, ival, ORTOL):
+                        fail = (ref, [istat, ival], f"after re-assigning location/scale, {fam.upper()}.logpdf is not that of the current parameters")
+            verdict(ctx, key, desc, tie_ok, out[:120], [istat, ival], fail, f"{fam.upper()} history: model (current parameters) and implementation differ")
 
 
 def quadrature_section(ctx, D, G, rng, S):
